@@ -1775,6 +1775,7 @@ ldb_maybe_schedule_compaction(ldb_t *db) {
     /* No work to be done. */
   } else {
     db->background_compaction_scheduled = 1;
+    LCDB_ACC("bgflag", db, 1);
     LCDB_EV(("BgSched", "\"imm\":%d,\"manual\":%d", db->imm != NULL,
              db->manual_compaction != NULL));
     ldb_pool_schedule(db->pool, &ldb_background_call, db);
@@ -1801,6 +1802,8 @@ ldb_background_call(void *ptr) {
   }
 
   db->background_compaction_scheduled = 0;
+
+  LCDB_ACC("bgflag", db, 1);
 
   /* Previous compaction may have produced too many files in a level,
      so reschedule another compaction if needed. */
@@ -2031,6 +2034,8 @@ ldb_make_room_for_write(ldb_t *db, int force) {
       db->logfile_number = new_log_number;
       db->log = ldb_writer_create(lfile, 0);
       db->imm = db->mem;
+
+      LCDB_ACC("memptr", db, 1);
 
       ldb_atomic_store(&db->has_imm, 1, ldb_order_release);
 
@@ -2277,6 +2282,8 @@ ldb_get(ldb_t *db, const ldb_slice_t *key,
   imm = db->imm;
   current = db->versions->current;
 
+  LCDB_ACC("memptr", db, 0);
+
   ldb_memtable_ref(mem);
 
   if (imm != NULL)
@@ -2394,6 +2401,8 @@ ldb_write(ldb_t *db, ldb_batch_t *updates, const ldb_writeopt_t *options) {
 
   ldb_queue_push(&db->writers, &w);
 
+  LCDB_ACC("writers", &db->writers, 1);
+
   LCDB_EV(("WEnq", "\"w\":%d,\"cv\":%d,\"sync\":%d,\"count\":%d", LCDB_ID(&w),
            LCDB_ID(&w.cv), w.sync,
            updates != NULL ? (int)ldb_batch_count(updates) : -1));
@@ -2492,6 +2501,8 @@ ldb_write(ldb_t *db, ldb_batch_t *updates, const ldb_writeopt_t *options) {
 
   for (;;) {
     ldb_waiter_t *ready = ldb_queue_shift(&db->writers);
+
+    LCDB_ACC("writers", &db->writers, 1);
 
     if (ready != &w) {
       ready->status = rc;
